@@ -138,6 +138,36 @@ func eq(a, b []int) bool {
 var unaryFns = []string{"PushLast", "PushHead", "PopLast", "Tail", "Map", "Mapi", "Filter", "FilterNone", "Sort", "SortBy", "Distinct", "Collect", "Observers"}
 var binaryFns = []string{"Append", "Concat", "Zip", "CollectStored", "ConcatAfterEmpty", "CollectStoredAfterEmpty"}
 
+// outerBad: set by apply when a function changed the LIST of chunks it was given (a [][]int value the program
+// still holds): length, the chunks' identity (array, length, capacity) or their contents
+var outerBad string
+
+func withOuter(outer [][]int, f func(ss [][]int) []int) []int {
+	type hdr struct {
+		p        uintptr
+		ln, cp   int
+		contents []int
+	}
+	snap := make([]hdr, len(outer))
+	for i, c := range outer {
+		snap[i] = hdr{base(c), len(c), cap(c), append([]int{}, c...)}
+	}
+	n := len(outer)
+	res := f(outer)
+	outerBad = ""
+	if len(outer) != n {
+		outerBad = "the list's length changed"
+	}
+	for i, c := range outer[:min(n, len(outer))] {
+		h := snap[i]
+		if base(c) != h.p || len(c) != h.ln || cap(c) != h.cp || !eq(c, h.contents) {
+			outerBad = fmt.Sprintf("chunk %d of the list was %v (len %d), now %v (len %d)", i, h.contents, h.ln, c, len(c))
+			break
+		}
+	}
+	return res
+}
+
 // apply runs one operation on the world; returns the result slice (nil if the
 // function returns no slice of ints), operand copies for the oracle, and ok=false
 // if the op is not applicable in this state.
@@ -208,14 +238,14 @@ func (w *world) apply(o op) (res []int, isSlice bool, applicable bool, operands 
 	case "Append":
 		return slice.Append(a, b), true, true, operands
 	case "Concat":
-		return slice.Concat([][]int{a, b}), true, true, operands
+		return withOuter([][]int{a, b}, func(ss [][]int) []int { return slice.Concat(ss) }), true, true, operands
 	case "CollectStored":
 		// the callback hands out STORED slices (a record field, identity on a slice of slices), not fresh ones
-		return slice.Collect(func(x []int) []int { return x }, [][]int{a, b}), true, true, operands
+		return withOuter([][]int{a, b}, func(ss [][]int) []int { return slice.Collect(func(x []int) []int { return x }, ss) }), true, true, operands
 	case "ConcatAfterEmpty":
-		return slice.Concat([][]int{nil, a, {}, b}), true, true, operands
+		return withOuter([][]int{nil, a, {}, b}, func(ss [][]int) []int { return slice.Concat(ss) }), true, true, operands
 	case "CollectStoredAfterEmpty":
-		return slice.Collect(func(x []int) []int { return x }, [][]int{{}, a, nil, b}), true, true, operands
+		return withOuter([][]int{{}, a, nil, b}, func(ss [][]int) []int { return slice.Collect(func(x []int) []int { return x }, ss) }), true, true, operands
 	case "Zip":
 		if len(a) != len(b) {
 			return nil, false, false, nil
@@ -506,6 +536,7 @@ func longPhase(sizes []int, depth3 map[int]bool) {
 					states++
 					for _, o := range menuLong(w0) {
 						w := mk(hist)
+						outerBad = ""
 						res, isSlice, ok, operands := w.apply(o)
 						if !ok {
 							continue
@@ -528,6 +559,9 @@ func longPhase(sizes []int, depth3 map[int]bool) {
 									bad = fmt.Sprintf("operand %d changed at %s", i, firstDiff(p[1], p[0]))
 								}
 							}
+						}
+						if bad == "" && outerBad != "" {
+							bad = "the list of chunks given to the function (a [][]int value) changed: " + outerBad
 						}
 						h := append(append([]op{}, hist...), o)
 						hs := how
@@ -614,6 +648,7 @@ func main() {
 			w0 := replay(n.root, n.hist)
 			for _, o := range menu(w0) {
 				w := replay(n.root, n.hist)
+				outerBad = ""
 				res, isSlice, ok, operands := w.apply(o)
 				if !ok {
 					continue
@@ -637,6 +672,9 @@ func main() {
 							bad = fmt.Sprintf("operand %d was %v, now %v", i, p[1], p[0])
 						}
 					}
+				}
+				if bad == "" && outerBad != "" {
+					bad = "the list of chunks given to the function (a [][]int value) changed: " + outerBad
 				}
 				h := append(append([]op{}, n.hist...), o)
 				if bad != "" {
